@@ -204,6 +204,35 @@ def nontrivial(pool, case):
     return False
 
 
+def registrar_dies(case):
+    """Does some collector lose its last strong reference (user handle, every scope / guard prior, the global default) while a
+    later op re-evaluates interests (emit of any callsite / Dispatch::new / rebuild)?  Bookkeeping for the histogram only."""
+    handle, glob, created = set(), None, 0
+    stacks = {}
+    dead_seen = False
+    for o in case["ops"]:
+        k = o[0]
+        if k in ("emit", "probe", "new", "rebuild") and dead_seen:
+            return True
+        if k == "new":
+            handle.add(created)
+            created += 1
+        elif k == "drop":
+            handle.discard(o[1])
+        elif k == "open" and (o[2] == 0 or o[2] - 1 in handle):
+            stacks.setdefault(o[1], []).append(o[2])
+        elif k == "close":
+            st = stacks.get(o[1], [])
+            if o[2] < len(st):
+                del st[len(st) - 1 - o[2]]
+        elif k == "setglobal" and o[2] in handle and glob is None:
+            glob = o[2]
+        held = set(handle) | ({glob} if glob is not None else set()) | {d - 1 for st in stacks.values() for d in st if d > 0}
+        if any(c not in held for c in range(created)):
+            dead_seen = True
+    return False
+
+
 # ------------------------------------------------------------------------------------------------
 
 def run(ctx):
@@ -294,6 +323,8 @@ def explore(ctx, rep, fx, tag, binpath, info, cases, g):
             rep.count("op:" + o[0])
         if nontrivial(pool, case):
             rep.nontrivial.add(("" if tag == "debug" else tag + "\n") + D.case_text(case))
+        if registrar_dies(case):
+            rep.count("histories in which a registrar dies (last strong reference gone) before a later emit / Dispatch::new / rebuild")
         for o, r in zip(case["ops"], recs):
             if r["k"] == "emit":
                 rep.count("emit:%s:%s" % (pool[o[2]]["kind"], "delivered" if r["del"] else "not-delivered"))
